@@ -9,6 +9,7 @@ From Coq Require Import ZArith List String Bool Lia PeanoNat.
 From LV Require Import Base.Conc Base.Events Model.RcuGp Proofs.RcuBits.
 Import ListNotations.
 Local Open Scope string_scope.
+Local Open Scope list_scope.
 Local Open Scope Z_scope.
 
 Definition trace := list (nat * ev).
@@ -46,7 +47,7 @@ Definition dispose_safe (tr : trace) : Prop :=
       forall r s, open_at tr r s k -> exists b, (k < b < d)%nat /\ at_ tr b r is_runlock0.
 
 (** *** basic facts about [at_] *)
-Lemma at_lt tr i t P : at_ tr i t P -> (i < length tr)%nat.
+Lemma at_lt tr i t P : at_ tr i t P -> (i < List.length tr)%nat.
 Proof. intros (e & H & _). apply nth_error_Some. congruence. Qed.
 
 Lemma at_app_l tr x i t P : at_ tr i t P -> at_ (tr ++ x) i t P.
@@ -54,21 +55,21 @@ Proof.
   intros (e & H & HP). exists e. split; [|exact HP]. rewrite nth_error_app1; [exact H|]. apply nth_error_Some. congruence.
 Qed.
 
-Lemma at_app_inv tr x i t P : at_ (tr ++ x) i t P -> (i < length tr)%nat -> at_ tr i t P.
+Lemma at_app_inv tr x i t P : at_ (tr ++ x) i t P -> (i < List.length tr)%nat -> at_ tr i t P.
 Proof. intros (e & H & HP) Hi. exists e. split; [|exact HP]. rewrite nth_error_app1 in H by exact Hi. exact H. Qed.
 
 Lemma at_snoc_inv tr t' e' i t P :
-  at_ (tr ++ [(t', e')]) i t P -> at_ tr i t P \/ (i = length tr /\ t = t' /\ P e' = true).
+  at_ (tr ++ [(t', e')]) i t P -> at_ tr i t P \/ (i = List.length tr /\ t = t' /\ P e' = true).
 Proof.
-  intros H. destruct (Nat.lt_ge_cases i (length tr)) as [Hi|Hi].
+  intros H. destruct (Nat.lt_ge_cases i (List.length tr)) as [Hi|Hi].
   - left. eapply at_app_inv; eauto.
   - right. destruct H as (e & H & HP). rewrite nth_error_app2 in H by exact Hi.
-    destruct (i - length tr)%nat as [|k] eqn:E.
+    destruct (i - List.length tr)%nat as [|k] eqn:E.
     + cbn in H. inversion H; subst. repeat split; auto. lia.
     + cbn in H. destruct k; discriminate.
 Qed.
 
-Lemma at_snoc_last tr t e P : P e = true -> at_ (tr ++ [(t, e)]) (length tr) t P.
+Lemma at_snoc_last tr t e P : P e = true -> at_ (tr ++ [(t, e)]) (List.length tr) t P.
 Proof. intros H. exists e. split; [|exact H]. rewrite nth_error_app2 by lia. rewrite Nat.sub_diag. reflexivity. Qed.
 
 Lemma at_excl tr i t t' P Q : at_ tr i t P -> at_ tr i t' Q -> (forall e, P e = true -> Q e = true -> False) -> False.
@@ -80,13 +81,13 @@ Proof. intros (e & H & HP) (e' & H' & HQ). rewrite H in H'. inversion H'; subst.
 Lemma tag1 t (e : ev) : Conc.tag t [e] = [(t, e)].
 Proof. reflexivity. Qed.
 
-Lemma open_at_app_l tr x r s i : open_at tr r s i -> (i <= length tr)%nat -> open_at (tr ++ x) r s i.
+Lemma open_at_app_l tr x r s i : open_at tr r s i -> (i <= List.length tr)%nat -> open_at (tr ++ x) r s i.
 Proof.
   intros (H1 & H2 & H3) Hi. split; [apply at_app_l; exact H1|]. split; [exact H2|].
   intros b Hb Hat. apply (H3 b Hb). eapply at_app_inv; eauto. lia.
 Qed.
 
-Lemma open_at_app_inv tr x r s i : open_at (tr ++ x) r s i -> (i <= length tr)%nat -> open_at tr r s i.
+Lemma open_at_app_inv tr x r s i : open_at (tr ++ x) r s i -> (i <= List.length tr)%nat -> open_at tr r s i.
 Proof.
   intros (H1 & H2 & H3) Hi. split; [eapply at_app_inv; eauto; lia|]. split; [exact H2|].
   intros b Hb Hat. apply (H3 b Hb). apply at_app_l; exact Hat.
@@ -192,7 +193,7 @@ Definition wclause (a : Aux) (s : wst) : Prop :=
 Definition widx (s : wst) : option nat :=
   match s with WIdle => None | WStart i | WHeld0 i | WPhase i _ _ _ | WFin i => Some i end.
 
-(** the writers' knowledge about old readers; [n] is the length of the trace *)
+(** the writers' knowledge about old readers; [n] is the List.length of the trace *)
 Record InvW (a : Aux) (n : nat) : Prop := {
   WB : forall w i, widx (l_w (a w)) = Some i -> (i <= n)%nat;
   WC : forall w, wclause a (l_w (a w))
@@ -211,7 +212,7 @@ Record InvT (a : Aux) (tr : trace) : Prop := {
 }.
 
 Definition Inv (g : G) (a : Aux) (tr : trace) : Prop :=
-  InvRec g a /\ InvLock g a /\ InvW a (length tr) /\ InvT a tr.
+  InvRec g a /\ InvLock g a /\ InvW a (List.length tr) /\ InvT a tr.
 
 (** ** stability: a group depends only on some fields *)
 Definition rfields (l : L) := (l_rec l, l_att l, l_seen l, l_depth l, l_ph l, l_ev l, l_cs l).
